@@ -1533,3 +1533,36 @@ Section Premises2.
         apply (leafy_tot t (wf_leafy _ _ Wt) Hn).
   Qed.
 End Premises2.
+
+(* ------------------------------------------------------------------ *)
+(* 7. the empty tree, and the statement for every well-formed tree      *)
+(* ------------------------------------------------------------------ *)
+Lemma g_split_tasks_fix {T} (spl : T -> list T) tk threads n :
+  spl tk = [tk] -> g_split_tasks spl threads n [tk] = [tk].
+Proof.
+  intros E. induction n as [|n IH]; [reflexivity|]. cbn [g_split_tasks g_split_pass length app].
+  destruct (threads <=? 0 + 1); [reflexivity|]. rewrite E. cbn [g_split_pass app]. exact IH.
+Qed.
+
+Lemma s_par_nil H size threads : s_par H size threads Nil = Some ([(PNil, [])], []).
+Proof.
+  unfold s_par. cbn [contents length s_rounds new_stask].
+  rewrite g_split_tasks_fix by reflexivity. cbn [map].
+  assert (s_next_chunk H Nil size (new_stask Nil) = Some (PNil, [], mks [] [])) as ->.
+  { unfold s_next_chunk, new_stask. cbn [spath spend fold_left rev app fst include tnodes].
+    change (4 * 1 + 4) with (S 7). rewrite nc_loop_unfold. rewrite andb_false_r.
+    unfold mstep. cbn [fst snd include nc_loop rev pbuild inc trim]. reflexivity. }
+  cbn [opt_all map snd fst filter s_finished spend negb app]. reflexivity.
+Qed.
+
+Theorem stack_port_chunks_all H t size n :
+  wf t -> exists res, s_par H size (S n) t = Some (res, []) /\ map fst res = chunks H size (S n) t /\
+                      map snd res = fst (par_runs size (S n) t).
+Proof.
+  intros W. destruct t as [|k v|lbl lf l r] eqn:Et.
+  - exists [(PNil, [])]. split; [apply s_par_nil|]. split; reflexivity.
+  - rewrite <- Et in *. destruct (par_stack_refines_count_l H t W size (S n)) as (res & E & Er & Ec); [subst; discriminate|].
+    exists res. repeat split; auto.
+  - rewrite <- Et in *. destruct (par_stack_refines_count_l H t W size (S n)) as (res & E & Er & Ec); [subst; discriminate|].
+    exists res. repeat split; auto.
+Qed.
